@@ -56,6 +56,7 @@ type Gen struct {
 	ctCache        map[*ssa.Function]ctEntry
 	mapNonNil      map[string][]string
 	boxNonNil      map[string][]string
+	cwUsed         map[string]bool      // callees some contract asks `calledwith` about
 	oldSyms        map[string]*symEntry // symbol table of the pinned tree (-symtab)
 	renameCache    map[*ssa.Function]map[string]string
 }
@@ -764,8 +765,14 @@ func (g *Gen) findTraced() {
 	walk = func(e SExpr) {
 		switch x := e.(type) {
 		case *SCall:
-			if (x.Fun == "ncalls" || x.Fun == "callarg" || x.Fun == "callseq" || x.Fun == "callres" || x.Fun == "callobs" || x.Fun == "callfn") && len(x.Args) > 0 {
+			if (x.Fun == "ncalls" || x.Fun == "callarg" || x.Fun == "callseq" || x.Fun == "callres" || x.Fun == "callobs" || x.Fun == "callfn" || x.Fun == "calledwith") && len(x.Args) > 0 {
 				g.traced[calleeKeyOf(x.Args[0])] = true
+				if x.Fun == "calledwith" {
+					if g.cwUsed == nil {
+						g.cwUsed = map[string]bool{}
+					}
+					g.cwUsed[calleeKeyOf(x.Args[0])] = true
+				}
 			}
 			for _, a := range x.Args {
 				walk(a)
@@ -1116,7 +1123,7 @@ func (g *Gen) mentionsTrace(e SExpr) bool {
 		switch x := e.(type) {
 		case *SCall:
 			switch x.Fun {
-			case "ncalls", "callarg", "callres", "callseq", "callobs", "callfn":
+			case "ncalls", "callarg", "callres", "callseq", "callobs", "callfn", "calledwith":
 				return true
 			}
 			bare := x.Fun
